@@ -230,7 +230,7 @@ Definition resolve_decimal (precision scale : N) (inner : dec_inner) (v : value)
                   | DBytes => true end in
   if negb inner_ok then Err else
   match v with
-  | VDecimal b => if max_prec_for_len (lenN b) <? precision then Err else Ok (VDecimal b)
+  | VDecimal b => Ok (VDecimal b)
   | VFixed _ b | VBytes b => if max_prec_for_len (lenN b) <? precision then Err else Ok (VDecimal b)
   | VString s =>
     match utf8_chars (S (length s)) s with
